@@ -52,7 +52,7 @@ func (f *Eql) Call(s *slip.Scope, args slip.List, depth int) slip.Object {
 	}
 	switch tx := x.(type) {
 	case slip.Character:
-		if y.(slip.Character) == tx {
+		if ty, ok := y.(slip.Character); ok && ty == tx {
 			return slip.True
 		}
 	case slip.String:
